@@ -50,6 +50,9 @@ def special_progs(rng):
     b = {"id": 1, "iface": 0, "conc": 3}; b2 = {"id": 2, "iface": 0, "conc": 3}
     out.append(P(synth.mkset(0, [synth.mkset(1, [], [mk(1, 3, [])], [], [], [b, b2])], [mk(2, 4, [0])]), [], 4, "dup:same-bind-twice"))
     out.append(P(synth.mkset(0, [synth.mkset(2, [synth.mkset(1, [], [mk(1, 3, [])], [], [], [b])], [], [], [], [b2])], [mk(2, 4, [0])]), [], 4, "dup:same-bind-nested"))
+    # two parameters of one separately written composite type
+    out.append(P(synth.mkset(0, [], [mk(1, 0, [3, 3]), mk(2, 3, [])]), [], 0, "dup-param:pointer"))
+    out.append(P(synth.mkset(0, [synth.mkset(1, [], [mk(1, 0, [2, 5, 5]), mk(2, 5, []), mk(3, 2, [])])]), [], 0, "dup-param:pointer-nested"))
     # cycles spanning imported sets with import-only parents; cycle through a binding not used by the injector
     s1 = synth.mkset(1, [], [mk(1, 0, [2])]); s2 = synth.mkset(2, [], [mk(2, 2, [0])]); s3 = synth.mkset(3, [], [mk(3, 4, [])])
     out.append(P(synth.mkset(0, [synth.mkset(4, [s1, s2, s3])]), [], 4, "cycle:across-imports-unused"))
@@ -66,6 +69,8 @@ def gen_progs(rng, n, pid):
         opts = {}
         if pid in ("C03", "C04", "C02"):
             opts["full_sig"] = rng.random() < 0.8
+        if pid in ("C14", "C01"):
+            opts["names_p"] = 0.9 if pid == "C14" else 0.5
         p = prog.make_prog(rng, opts=opts)
         why = prog.renderable(p)
         if why:
@@ -79,10 +84,11 @@ def prog_oracle(pid, p, r, o):
     """Property pid read directly on what the implementation did with program p."""
     tree, given, out = p["tree"], p["given"], p["out"]
     msgs = []
-    if o.get("crash") and pid == "C20":
-        msgs.append("wire crashed: " + o["crash"][-300:])
+    if o.get("crash"):
+        msgs.append("wire crashed or hung on this type-correct program: " + o["crash"][:300])
+        return msgs
     accepted = bool(o["generated"])
-    ds = synth.parse_errors(tree, o["errors"], parse_t=gencase.ptid, strip=gencase.strip_msg) if not accepted else []
+    ds = synth.parse_errors(tree, o["errors"], parse_t=gencase.ptid_for(r), strip=gencase.strip_msg) if not accepted else []
     set_errs = [d for d in ds if d[0] in ("DMulti", "DBindMissing", "DCycle", "DItem", "DUnparsed")]
     solve_errs = [d for d in ds if d[0] == "DNoProvider" or d[0].startswith("DUnused")]
     inj_errs = [d for d in ds if d[0] in ("DNeedsCleanup", "DNeedsErr", "DValueAccess")]
@@ -90,11 +96,13 @@ def prog_oracle(pid, p, r, o):
     if pid in ("C05", "C06", "C07", "C08", "C09", "C10", "C11"):
         msgs += props_oracle_core(pid, (tree, given, out), accepted, set_ok, set_errs, solve_errs, None,
                                   sig=(p["cleanup"], p["err"]), inject_errs=inj_errs)
-    if pid == "C01" and accepted:
+    if pid in ("C01", "C02", "C14") and accepted:
         if "build_error" in o:
             msgs.append("wire gen succeeded but the package does not compile: " + o["build_error"][:400])
-        if "readback" in o:
-            fn = [f for f in o["readback"]["funcs"] if f["name"] == "Inject"]
+        if "readback" in o and o["readback"].get("error"):
+            msgs.append("the generated file does not parse: " + o["readback"]["error"][:300])
+        elif "readback" in o:
+            fn = [f for f in (o["readback"].get("funcs") or []) if f["name"] == "Inject"]
             if len(fn) != 1:
                 msgs.append("expected exactly one generated implementation of Inject, found %d" % len(fn))
     if accepted and "runs" in o:
